@@ -3,7 +3,7 @@ import engine_common as E
 
 VFILES = ["props/C02.v", "props/C02den.v"]
 ASSUMPTIONS = ["as C01"]
-CLASSES = {"parse"}
+CLASSES = {"parse", "build"}      # a grammar object graph that is not the one intended invalidates every comparison made on it
 
 
 def run(ctx):
